@@ -344,6 +344,7 @@ func c07build(c GCase) *c07graph {
 		})
 	}
 	h := &gram.Hooks{
+		Budget:      gd.LeafTick,
 		Inside:      gd.Inside,
 		MemoExpr:    c.MemoExpr,
 		ShareLeaves: true,
